@@ -471,7 +471,7 @@ def top_data(data, count, category_fields=None):
     data_top = []
     for category_key in category_order:
         category_key_rows = category_rows[category_key]
-        for ix_row in range(min(count, len(category_key_rows))):
+        for ix_row in range(min(int(count), len(category_key_rows))):
             data_top.append(category_key_rows[ix_row])
 
     return data_top
